@@ -97,6 +97,29 @@ func TestC15(t *testing.T) {
 	var hs []hist
 	slow := 0
 	certPEM, keyPEM := genCert(t)
+	// hand-made plugins (not plugin.Serve) that listen where such a plugin may: on a Linux abstract socket (unix|@name)
+	for _, proto := range []string{"netrpc", "grpc"} {
+		for _, h := range all {
+			if len(h.events) > 3 {
+				continue
+			}
+			var ops, names []string
+			for _, e := range h.events {
+				ops = append(ops, e.ops...)
+				names = append(names, e.name)
+			}
+			if h.st.alive {
+				ops = append(ops, "kill:0")
+			}
+			cells = append(cells, Cell{
+				Name:   fmt.Sprintf("%s hand-made plugin on an abstract socket history=[%s]", proto, strings.Join(names, " ")),
+				Plugin: PluginConf{CookieKey: cookieKey, CookieValue: cookieVal, Legacy: 1, LegacyProto: proto, GRPCServer: true, TLS: "none", Impostor: "handmade-abstract"},
+				Host:   HostConf{Allowed: []string{"netrpc", "grpc"}, TLS: "none", Launch: "cmd", Legacy: 1},
+				Ops:    ops,
+			})
+			hs = append(hs, h)
+		}
+	}
 	for _, proto := range []string{"netrpc", "grpc"} {
 		for _, hostVers := range [][]int{nil, {2}, {-1}} { // {-1}: (marker) the static-TLS variant, legacy plugins only
 			for _, h := range all {
